@@ -583,7 +583,7 @@ coap_proxy_forward_request_lkd(coap_session_t *session,
   }
   proxy_entry->req_list = new_req_list;
   /* Get a new token for ongoing session */
-  coap_session_new_token(proxy_entry->ongoing, &token_len, token);
+  coap_session_new_token_lkd(proxy_entry->ongoing, &token_len, token);
   new_req_list[proxy_entry->req_count].token_used = coap_new_bin_const(token, token_len);
   if (new_req_list[proxy_entry->req_count].token_used == NULL) {
     goto failed;
